@@ -220,6 +220,14 @@ Theorem C18_super_ids n c l :
 Proof. exact (en_ids_super_spec n c l). Qed.
 Print Assumptions C18_super_ids.
 
+(* order (C11/C14 iterate over these): super_coalitions is the id-ordered filter; get_sub_coalitions goes by non-decreasing size *)
+Theorem C18_super_ids_is_filter n c : bounded n c -> en_ids_super n c = Some (filter (fun x => sub c x) (alln n)).
+Proof. exact (en_ids_super_is_filter n c). Qed.
+Print Assumptions C18_super_ids_is_filter.
+Theorem C18_sub_obj_by_size c : StronglySorted (fun a b => (en_len a <= en_len b)%nat) (en_sub_obj c).
+Proof. exact (en_sub_obj_sorted_size c). Qed.
+Print Assumptions C18_sub_obj_by_size.
+
 (* the two representations enumerate the same sets; so do the enumerations of the bound computers (Bits.splits/supers) *)
 Theorem C18_sub_permutation n c l : bounded n c -> en_ids_sub n c = Some l -> Permutation (en_sub_obj c) l.
 Proof. exact (en_sub_perm n c l). Qed.
@@ -265,7 +273,10 @@ Theorem C18_powerset (l : list A) :
   (forall s, In s (cb_powerset l) <-> cb_sublist s l) /\ (NoDup l -> NoDup (cb_powerset l)) /\
   length (cb_powerset l) = (2 ^ length l)%nat.
 Proof. exact (conj (cb_powerset_in l) (conj (cb_powerset_NoDup l) (cb_powerset_length l))). Qed.
+Theorem C18_powerset_by_size (l : list A) : StronglySorted (fun s t => (length s <= length t)%nat) (cb_powerset l).
+Proof. exact (cb_powerset_sorted_length l). Qed.
 End K.
+Print Assumptions C18_powerset_by_size.
 Print Assumptions C18_combs_enumerates_k_sublists.
 Print Assumptions C18_combs_NoDup.
 Print Assumptions C18_combs_by_index.
